@@ -260,6 +260,40 @@ def trace_key(case, obs, clauses):
     return 'C18/%s/%s' % ('+'.join(sorted(clauses)), cls)
 
 
+TWIN = 10 ** 6
+
+
+def corrupted_twins(batch):
+    """Copies of recorded cases with one recorded field corrupted."""
+    import copy
+    twins = {}
+    for c in batch:
+        o = c['obs']
+        if c['kind'] == 'bylabels' and o['rows'] and not o['error'] and TWIN + 1 not in twins:
+            t = copy.deepcopy(c)
+            t['id'] = TWIN + 1
+            t['obs']['rows'][0]['OK'] += 1                       # one result counted twice
+            twins[TWIN + 1] = t
+        if c['kind'] == 'bylabels' and o['rows'] and not o['error'] and o['missing'] > 0 and TWIN + 2 not in twins:
+            t = copy.deepcopy(c)
+            t['id'] = TWIN + 2
+            t['obs']['missing'] -= 1
+            twins[TWIN + 2] = t
+        if c['kind'] in ('tasks', 'tests') and o['classify'] and len(o['classify'][0][1]) >= 2 and TWIN + 3 not in twins:
+            t = copy.deepcopy(c)
+            t['id'] = TWIN + 3
+            del t['obs']['classify'][0][1][0]                    # one name dropped from its class
+            twins[TWIN + 3] = t
+        if c['kind'] in ('tasks', 'tests') and c['tasks'] and TWIN + 4 not in twins:
+            t = copy.deepcopy(c)
+            t['id'] = TWIN + 4
+            t['obs']['success'] = not t['obs']['success']        # verdict flipped
+            twins[TWIN + 4] = t
+        if len(twins) == 4:
+            break
+    return twins
+
+
 def replay_case(case):
     """Re-run a recorded input on the implementation and let TLC (StatsTrace) judge the observation."""
     obs = observe(case)
@@ -407,10 +441,19 @@ def run_c18(ctx):
         byid[cid] = (case, obs)
         batch.append(to_trace_case(cid, case, obs))
     rejected = 0
+    # binding self-test: corrupted twins of recorded observations ride along in the first batch and must be rejected
+    twins = corrupted_twins(batch)
+    if len(twins) < 3:
+        raise tlc.MachineryError('no recorded observation suitable for the corrupted-trace self-test')
     chunk = 10000
     for k in range(0, len(batch), chunk):
-        res, bad = validate_batch(batch[k:k + chunk], wd, 'trace%d' % (k // chunk))
+        res, bad = validate_batch(batch[k:k + chunk] + (list(twins.values()) if k == 0 else []), wd, 'trace%d' % (k // chunk))
         ctx.tlc(res, 'StatsTrace/%d' % (k // chunk))
+        if k == 0:
+            missed = set(twins) - {b[0] for b in bad}
+            if missed:
+                raise tlc.MachineryError('StatsTrace accepts corrupted observations %s' % sorted(missed))
+        bad = [b for b in bad if b[0] < TWIN]
         clauses = {}
         for cid, clause in bad:
             clauses.setdefault(cid, set()).add(clause)
